@@ -564,7 +564,7 @@ func runSMT(text string, getVals []string, file string, solver string, timeoutS 
 func runConc(ld *loaded, sp *concSpec, pkgDir string, tier tierCfg, known []*sym.KnownFinding, verbose bool) int {
 	t0 := time.Now()
 	prop := sp.Property
-	outDir := filepath.Join(verifDir, "out", prop)
+	outDir := filepath.Join(outBase, prop)
 	os.MkdirAll(outDir, 0o755)
 	if old, _ := filepath.Glob(filepath.Join(outDir, "conc-*.json")); len(old) > 0 {
 		for _, f := range old {
@@ -927,9 +927,9 @@ func runConc(ld *loaded, sp *concSpec, pkgDir string, tier tierCfg, known []*sym
 			"z3 answers are correct; thorough tier cross-checks with cvc5",
 		},
 	}
-	os.MkdirAll(filepath.Join(verifDir, "evidence"), 0o755)
+	os.MkdirAll(evidenceDir, 0o755)
 	b, _ := json.MarshalIndent(ev, "", " ")
-	os.WriteFile(filepath.Join(verifDir, "evidence", prop+".json"), b, 0o644)
+	os.WriteFile(filepath.Join(evidenceDir, prop+".json"), b, 0o644)
 	fmt.Printf("property %s tier %s: %d thread templates, %d recorded paths, %d queries, %d violations, %d known findings seen, wall %.1fs\n", prop, tier.name, len(tpls), nPaths, queries, confirmedN, knownN, time.Since(t0).Seconds())
 	if unknown > unknownBase {
 		fmt.Printf("  NOTE %d queries beyond 2 threads were inconclusive within the time limit: those template assignments are outside what this run decided (listed above; obligations %d, discharged %d)\n", unknown-unknownBase, obligations, discharged)
